@@ -37,6 +37,25 @@ CHECKS = {
              "delivery iff valid with the exact decoding; for invalid uncompressed text the stream is cut right after the "
              "first offending byte and the ProtocolError must appear before the client idles (fail-fast).",
         note="Trusts harness/utf8ref.py (checked against CPython's strict decoder on all 2-byte strings and a boundary table)."),
+    "C02": dict(
+        category="exploration", design_ref="DESIGN.md section 3 / C02",
+        technique="metamorphic property-based testing (two segmentations of one stream must agree) + exhaustive cut-set enumeration for short streams",
+        text="Metamorphic differential: the same server byte stream is delivered once in whole reads and once under a generated "
+             "segmentation; events (with payloads) and client-written bytes must be identical. Streams come from conforming "
+             "sessions (with/without permessage-deflate), injected violations, byte-edited variants, raw bytes and oversized "
+             "handshake replies around the 16 KiB bound; the application is passive or reacts per message ordinal. For a "
+             "catalogue of 45 short streams ALL cut sets are enumerated (exhaustive for those streams), and the handshake reply "
+             "(+ first frame) under all cut sets of size <= 2, every uniform chunk size and byte-wise.",
+        note="Deterministic masking/handshake keys and a frozen clock make raw client bytes comparable; reads never exceed 64 KiB."),
+    "C03": dict(
+        category="exploration", design_ref="DESIGN.md section 3 / C03",
+        technique="property-based testing of the send API: generated calls decoded by an independent strict RFC 6455 decoder (round trip) + exhaustive length sweep",
+        text="Generated sequences of send_text/send_binary/send_json/send_ping/send_pong/close calls (valid and invalid arguments, "
+             "drawn masking keys, compression negotiated or not) on a Ready connection; the bytes each call hands to sendall are "
+             "decoded by an independent strict client-frame decoder and unmasked/inflated back to the caller's payload; invalid "
+             "calls must raise TypeError/ValueError and write nothing; arguments compared with deep copies. Every payload length "
+             "0..1100 and 65530..65545 x 4 fixed keys x text/binary is enumerated.",
+        note="Trusts harness/wire.py strict decoder and harness/deflateref.py (zlib) for RSV1 frames."),
 }
 
 PENDING = {}
